@@ -1933,6 +1933,8 @@ class TypeConfig:
 
     def copy_dependencies(self, other: "Config"):
         """Add all the dependencies from other configuration"""
+        if self.__xpm__._sealed:
+            raise SealedError("Cannot copy dependencies to a sealed configuration")
 
         # Add task dependency
         if other.__xpm__.task is not None:
